@@ -13,6 +13,7 @@ from __future__ import annotations
 
 import ast
 
+from ..absint import TOP, ExcVal, Hooks, Interp, Obj, State, Sym
 from ..cfg import cfg_of
 from ..core import META, Ctx, RuleResult, rule
 from ..dataflow import dataflow_of
@@ -20,7 +21,7 @@ from ..model import AnalysisError, Func, norm_stmt, parent
 from ..paths import PathFinder, describe_path
 from ..pattern import C, G, V, call, match, norm
 from ..terms import Term, alts, contains, ends_with_attrs, root_of, show, subterms
-from ..util import calls_in, deep_subterms, nodes_in
+from ..util import gated_values, guard_leaves, norm_cond, strict_lt, calls_in, deep_subterms, nodes_in
 from .c01 import c01_2
 from .c02 import c02_2, c02_4
 from .c14 import ensemble_calculate, optimizer_callbacks
@@ -92,8 +93,14 @@ def c03_1(ctx: Ctx) -> RuleResult:
                        "(a realization failing in one array keeps values in the other)")
         res.add(f, f.node, f"{name}: rows where any objective or any constraint is NaN are NaN in all columns", ok, why, construct=f"{f.name}: {name} rows")
     # reductions are 'any' over the last axis (not 'all', not another axis)
-    reds = [s for s in X.closure(rt) if s[0] == "call" and s[1][0] == "global" and s[1][1] in ("numpy.logical_or.reduce", "numpy.logical_and.reduce", "numpy.any", "numpy.all") and s[2] and contains(s[2][0], lambda y: y == ("global", "numpy.isnan"))]
-    ok = bool(reds) and all(s[1][1] in ("numpy.logical_or.reduce", "numpy.any") and any(k == "axis" and norm(v) == C(-1) for k, v in s[3]) for s in reds)
+    reds = []
+    for s in X.closure(rt):
+        if s[0] != "call":
+            continue
+        s2 = norm(s)  # method forms (x.any(...)), logical_or.reduce -> numpy.any
+        if s2[0] == "call" and s2[1][0] == "global" and s2[1][1] in ("numpy.any", "numpy.all") and s2[2] and contains(s2[2][0], lambda y: y == ("global", "numpy.isnan")):
+            reds.append(s2)
+    ok = bool(reds) and all(s[1][1] == "numpy.any" and any(k == "axis" and norm(v) == C(-1) for k, v in s[3]) for s in reds)
     res.add(f, f.node, "row tests reduce with OR over the last axis", ok, "" if ok else "a row test uses AND or another axis: a single NaN does not fail the row", construct=f"{f.name}: OR over last axis")
     # consumers read column 0 only: tie to the propagation
     u = ctx.repo.funcs.get("ropt.ensemble_evaluator._utils._get_failed_realizations")
@@ -152,56 +159,91 @@ def _threshold_compares(ctx: Ctx):
     return out
 
 
+def _is_success_count(t: Term, F: Term) -> bool:
+    """t == number of realizations that did not fail, F the failure flags:
+    count_nonzero(~F) | sum(~F) | F.size - count_nonzero(F) | len(F) - sum(F) ..."""
+    t, F = norm(t), norm(F)
+    notF = ("unary", "~", F)
+    cnt = lambda x: [call("numpy.count_nonzero", x), call("numpy.sum", x)]  # noqa: E731
+    if t in cnt(notF):
+        return True
+    sizes = [("attr", F, "size"), call(("builtin", "len"), F), ("sub", ("attr", F, "shape"), C(0)), ("sub", ("attr", F, "shape"), C(-1))]
+    for sz in sizes:
+        for c_ in cnt(F):
+            if t == norm(("binop", "-", sz, c_)):
+                return True
+    return False
+
+
 @rule(P)
 def c03_2(ctx: Ctx) -> RuleResult:
     res = RuleResult("C03.2", "ENUM", "threshold comparisons: fails iff successes < perturbation_min_success; computed iff successes >= realization_min_success")
     X = ctx.X
-    cmps = _threshold_compares(ctx)
-    gates = []
-    for f, n, t, which, side in cmps:
-        op = t[1]
-        other = t[5 - side]
-        if which == "perturbation_min_success":
-            # normal form: count < threshold  (threshold on the right)
-            ok = op == "<" and side == 3
-            cnt_ok = contains(other, lambda s: s[0] == "call" and s[1] == G("numpy.count_nonzero")) and contains(other, lambda s: s[0] == "unary" and s[1] == "~")
-            res.add(f, n, "a realization fails iff its number of successful perturbations is strictly less than perturbation_min_success", ok and cnt_ok,
-                    "" if ok and cnt_ok else (f"comparison is `{show(t, 80)}`: off-by-one or wrong direction at the perturbation threshold" if not ok else "the count is not the number of non-failed perturbations"),
-                    construct=f"{f.name}: {show(t, 70)}")
-        else:
-            if other == C(1) or other[0] == "const":
-                # `realization_min_success < 1`: the allow-zero check of the driver, not a gate
-                continue
-            # normal form: threshold <= count
-            ok = op == "<=" and side == 2
-            cnt_ok = contains(other, lambda s: s[0] == "call" and s[1] == G("numpy.count_nonzero")) and contains(other, lambda s: s[0] == "unary" and s[1] == "~")
-            gates.append((f, n, t))
-            res.add(f, n, "functions/gradients are computed iff the number of successful realizations >= realization_min_success", ok and cnt_ok,
-                    "" if ok and cnt_ok else (f"gate is `{show(t, 80)}`: off-by-one or wrong direction at the realization threshold" if not ok else "the count is not the number of non-failed realizations"),
-                    construct=f"{f.name}: gate {show(t, 60)}")
-            # else branch yields None
-            p_ = parent(n)
-            while p_ is not None and not isinstance(p_, ast.If):
-                p_ = parent(p_)
-            ok2 = False
-            if isinstance(p_, ast.If) and p_.orelse:
-                ok2 = any(isinstance(s, ast.Assign) and isinstance(s.value, ast.Constant) and s.value.value is None for s in p_.orelse)
-            res.add(f, n, "below the threshold no functions/gradients are reported (None)", ok2, "" if ok2 else "the failing branch does not yield None", construct=f"{f.name}: gate else None")
-    # sibling agreement and coverage: every call computing functions / gradients is gated
+    # ---- the perturbation threshold: every comparison against it reads `successes < threshold`
+    for f, n, t, which, side in _threshold_compares(ctx):
+        if which != "perturbation_min_success":
+            continue
+        atom, pol = strict_lt(*norm_cond(t))
+        p_ = parent(n)
+        while isinstance(p_, ast.UnaryOp) and isinstance(p_.op, (ast.Not, ast.Invert)):
+            pol = not pol
+            p_ = parent(p_)
+        ok = atom[0] == "cmp" and atom[1] == "<" and _is_threshold(ctx, f, atom[3], which) and pol
+        other = atom[2] if atom[0] == "cmp" else t
+        cnt_ok = contains(other, lambda s: s[0] == "call" and s[1] == G("numpy.count_nonzero")) and contains(other, lambda s: s[0] == "unary" and s[1] == "~")
+        res.add(f, n, "a realization fails iff its number of successful perturbations is strictly less than perturbation_min_success", ok and cnt_ok,
+                "" if ok and cnt_ok else (f"comparison is `{show(t, 80)}`: off-by-one or wrong direction at the perturbation threshold" if not ok else "the count is not the number of non-failed perturbations"),
+                construct=f"{f.name}: perturbation threshold")
+    # ---- the realization threshold: every functions= / gradients= value of a result is computed
+    #      under `not (successes < realization_min_success)` and is None otherwise
     ee = ctx.repo.cls("ropt.ensemble_evaluator._ensemble_evaluator.EnsembleEvaluator")
+    which = "realization_min_success"
     for m in ee.methods.values():
-        for cl in calls_in(m):
-            if isinstance(cl.func, ast.Attribute) and cl.func.attr in ("_compute_functions", "_compute_gradients"):
-                p_ = parent(cl)
-                gated = False
-                while p_ is not None and p_ is not m.node:
-                    if isinstance(p_, ast.If) and any(n_ is x for (_f, n_, _t) in gates for x in ast.walk(p_.test)):
-                        gated = True
-                    p_ = parent(p_)
-                res.add(m, cl, f"`{cl.func.attr}` is called only under the realization_min_success gate", gated,
-                        "" if gated else "functions/gradients are computed without checking the minimum number of successful realizations", construct=f"{m.name}: gated {cl.func.attr}")
+        for call_ in calls_in(m):
+            fn = X.at(m, call_.func)
+            if fn not in (G("ropt.results._function_results.FunctionResults"), G("ropt.results._gradient_results.GradientResults")):
+                continue
+            kwn = {k.arg: k.value for k in call_.keywords if k.arg}
+            ct = X.at(m, call_)
+            rk = dict(dict(ct[3]).get("realizations", ("call", None, (), ()))[3]) if dict(ct[3]).get("realizations", ("x",))[0] == "call" else {}
+            F = rk.get("failed_realizations")
+            for name in ("functions", "gradients"):
+                if name not in kwn:
+                    continue
+                leaves = gated_values(ctx, m, kwn[name])
+                computed = [(c, l_) for c, l_ in leaves if l_ != NONE_T]
+                nones = [(c, l_) for c, l_ in leaves if l_ == NONE_T]
+                why = ""
+                if F is None:
+                    why = "the failure flags reported with the result were not found"
+
+                def gate_pol(conds):
+                    """polarity of `successes < threshold` among the conditions, None when absent"""
+                    for a, p in conds:
+                        a, p = strict_lt(a, p)
+                        if a[0] == "cmp" and a[1] == "<" and _is_threshold(ctx, m, a[3], which) and F is not None and _is_success_count(a[2], F):
+                            return p
+                    return None
+
+                def describe(conds):
+                    return [("" if p else "not ") + show(a, 70) for a, p in conds]
+
+                if not why and not computed:
+                    why = f"no computed `{name}` reach the result"
+                for c, l_ in computed:
+                    if why:
+                        break
+                    if gate_pol(c) is not False:
+                        why = (f"`{name}` are computed under {describe(c)}: not exactly when the number of successful realizations (count of ~failed_realizations) "
+                               ">= realization_min_success (off-by-one, wrong direction or another count)")
+                res.add(m, call_, f"{name} are computed iff the number of successful realizations >= realization_min_success", not why, why, construct=f"{m.name}: gate {name}")
+                ok2 = bool(nones) and all(gate_pol(c) is True for c, _l in nones)
+                res.add(m, call_, f"below the threshold no {name} are reported (None)", ok2, "" if ok2 else "the failing branch does not yield None", construct=f"{m.name}: gate else None {name}")
     res.floor = 9
     return res
+
+
+NONE_T = ("const", None)
 
 
 @rule(P)
@@ -219,11 +261,37 @@ def c03_3(ctx: Ctx) -> RuleResult:
 
 
 # --------------------------------------------------------------------- C03.4
+class _DriverHooks(Hooks):
+    """The evaluation driver is interpreted with the evaluator's answer replaced by a
+    chosen tuple of results; everything else outside the package is unknown."""
+
+    def __init__(self, calc_calls, results) -> None:
+        self.calc_calls = calc_calls
+        self.results = results
+
+    def external_call(self, interp, text, args, kwargs, st, func, node):
+        if node in self.calc_calls:
+            return [(st, self.results)]
+        return [(st, TOP)]
+
+
+def _driver_outcomes(ctx: Ctx, g: Func, calc_calls, result_cls: str, fields: dict):
+    interp = Interp(ctx.repo, _DriverHooks(calc_calls, (Obj("R", result_cls),)))
+    interp.track_raises = True
+    st = State({"self": {}, "R": dict(fields)}, {})
+    kwargs = {a.arg: True for a in g.node.args.kwonlyargs}
+    args = [Obj("self", g.cls.qualname if g.cls else "")] + [Sym(p) for p in g.positional[1:]]
+    env = {p: v for p, v in zip(g.positional, args)}
+    env.update(kwargs)
+    return interp.exec_block(g.body, env, st, g, 0)
+
+
 @rule(P)
 def c03_4(ctx: Ctx) -> RuleResult:
     res = RuleResult("C03.4", "DOM", "a result without functions / gradients stops the optimization with TOO_FEW_REALIZATIONS")
-    X = ctx.X
     calc = ensemble_calculate(ctx)
+    FR, GR = "ropt.results._function_results.FunctionResults", "ropt.results._gradient_results.GradientResults"
+    ABORT = "ropt.exceptions.OptimizationAborted"
     found = False
     for cb in optimizer_callbacks(ctx):
         for g in [cb] + [x for _c, cs, _k in ctx.cg.all_callees(cb) for x in cs]:
@@ -231,45 +299,30 @@ def c03_4(ctx: Ctx) -> RuleResult:
             if not direct:
                 continue
             found = True
-            cfg = cfg_of(ctx.repo, g)
-            pf = PathFinder(cfg, dataflow_of(ctx.repo, g))
-            # the loop over the results of calculate
-            loops = [n for n in nodes_in(g, ast.For) if X.at(g, n.iter)[0] == "call" and calc in ctx.cg.resolve_fn(X.at(g, n.iter)[1], g)]
-            if not loops:
-                res.add(g, direct[0], "the results of the evaluation are inspected one by one", False, "no loop over the results", construct=f"{g.name}: loop over results")
-                continue
-            lp = loops[0]
-            item = lp.target.id if isinstance(lp.target, ast.Name) else None
-            sets = []
-            for nd in ast.walk(lp):
-                if isinstance(nd, ast.If):
-                    t = X.at(g, nd.test)
-                    fn_none = contains(t, lambda s: s[0] == "cmp" and s[1] == "is" and s[3] == C(None) and s[2][0] == "attr" and s[2][2] == "functions")
-                    gr_none = contains(t, lambda s: s[0] == "cmp" and s[1] == "is" and s[3] == C(None) and s[2][0] == "attr" and s[2][2] == "gradients")
-                    assigns = [s for s in nd.body if isinstance(s, ast.Assign) and contains(X.at(g, s.value), lambda y: y == ("global", "ropt.enums.OptimizerExitCode.TOO_FEW_REALIZATIONS"))]
-                    raises = [s for s in nd.body if isinstance(s, ast.Raise)]
-                    if assigns or raises:
-                        sets.append((nd, fn_none, gr_none, assigns, raises))
-            ok = any(a and b for _n, a, b, _s, _r in sets)
-            res.add(g, lp, "inside the loop: `functions is None` (function results) or `gradients is None` (gradient results) selects TOO_FEW_REALIZATIONS", ok,
-                    "" if ok else "a result kind is not tested: missing functions or gradients go unnoticed and are consumed as values", construct=f"{g.name}: per-result None tests")
-            # flag -> raise on every path to the normal exit
-            for nd, _a, _b, assigns, raises in sets:
-                for a in assigns:
-                    for an in cfg.node_containing(a):
-                        var = a.targets[0].id if isinstance(a.targets[0], ast.Name) else "?"
-                        # the assignment stores an enum member (not None); the fact is
-                        # re-established on every edge leaving the assignment node
-                        fact = [(("isnone", var, frozenset([var])), False)]
-                        path = None
-                        for nxt, lab in an.succ:
-                            if lab == "exc":
-                                continue
-                            p_ = pf.find_path(nxt, lambda m: m is cfg.exit, start_facts=fact, goal_at_start=True)
-                            path = path or p_
-                        res.add(g, a, "once the flag is set the function cannot return normally (the raise is reached)", path is None,
-                                "" if path is None else "the TOO_FEW flag can be set and ignored", [] if path is None else describe_path(g, path), construct=f"{g.name}: flag leads to raise")
-            # consumers run only after this function returned normally
+            # every execution of the driver in which the evaluator returned a result without
+            # functions (resp. gradients) ends by raising OptimizationAborted(TOO_FEW_REALIZATIONS)
+            for label, cls_, fields in (("function result without functions", FR, {"functions": None}), ("gradient result without gradients", GR, {"gradients": None})):
+                outs = _driver_outcomes(ctx, g, direct, cls_, fields)
+                bad = []
+                for st, flow, val, _env in outs:
+                    code = val.get("exit_code") if isinstance(val, ExcVal) else None
+                    if not (flow == "raise" and isinstance(val, ExcVal) and val.cls == ABORT and isinstance(code, Sym) and code.text.endswith("OptimizerExitCode.TOO_FEW_REALIZATIONS")):
+                        bad.append((flow, val, st))
+                ok = bool(outs) and not bad
+                why = ""
+                if not outs:
+                    why = "the driver could not be interpreted to an end (no outcome)"
+                elif bad:
+                    flow, val, st = bad[0]
+                    how = "returns normally" if flow != "raise" else f"raises {val.cls}({dict(val.kwargs)})" if isinstance(val, ExcVal) else flow
+                    why = (f"with a {label} the driver {how} under {sorted(k for k, v in st.atoms.items() if v)} / not {sorted(k for k, v in st.atoms.items() if not v)}: "
+                           "the missing values are consumed as if they were present, or the optimization stops with another code")
+                res.add(g, direct[0], f"a {label} makes the evaluation driver raise OptimizationAborted(TOO_FEW_REALIZATIONS) on every path ({len(outs)} paths interpreted)", ok, why,
+                        construct=f"{g.name}: {label}")
+            # control: with complete results the driver can return normally (the check above is not vacuous)
+            outs = _driver_outcomes(ctx, g, direct, FR, {"functions": Sym("F", True)})
+            ok = any(flow == "return" for _s, flow, _v, _e in outs)
+            res.add(g, direct[0], "with complete results the driver returns them (control for the interpretation)", ok, "" if ok else "no normally returning path found", construct=f"{g.name}: complete results returned")
     if not found:
         raise AnalysisError("the driver function calling EnsembleEvaluator.calculate was not found")
     # consumers assert presence (functions_from_results / gradients_from_results)
@@ -299,7 +352,7 @@ def c03_5(ctx: Ctx) -> RuleResult:
             r, gr = kw.get("realizations"), kw.get("gradients")
             if r is None or gr is None or r[0] != "call":
                 continue
-            used = [a for a in alts(gr) if a[0] == "call"]
+            used = [a for _c, a in guard_leaves(gr, strip_wrappers=False) if a[0] == "call"]
             if not used:
                 continue
             n += 1
